@@ -161,6 +161,91 @@ def _public_replay_poly(et):
     return rp
 
 
+class _StopQP(Exception):
+    pass
+
+
+def make_dc_objective(order):
+    """DC OPF: the quadratic program the real dcopf_solver hands to the QP solver has, for every dispatch Pg and every value of the piecewise
+    linear helper variables y, the objective sum_poly(c2 p^2 + c1 p + c0) + sum(y) - whatever the order of polynomial and piecewise linear
+    rows in gencost is"""
+    def fn(ctx):
+        import inspect
+        ds = ctx.load("pandapower.pypower.dcopf_solver")
+        from pandapower.pypower.idx_cost import MODEL, NCOST, COST, POLYNOMIAL, PW_LINEAR
+        from pandapower.pypower.idx_bus import bus_cols, BUS_TYPE, VA
+        from pandapower.pypower.idx_gen import gen_cols
+        from pandapower.pypower.idx_brch import branch_cols
+        from .common import patched
+        from symx.shim import DMat
+        nb, ng = 2, len(order)
+        base = ctx.var("baseMVA", 1., 100.)
+        gencost = ctx.obj(np.zeros((ng, COST + 6)))
+        coef = {}
+        for r, kind in enumerate(order):
+            if kind == "pwl":
+                gencost[r, MODEL], gencost[r, NCOST] = PW_LINEAR, 3
+                gencost[r, COST:COST + 6] = [0., 0., 1., 10., 2., 30.]
+            elif kind == "lin":
+                coef[r] = (0.0, ctx.var(f"c1_{r}", -10., 10.), ctx.var(f"c0_{r}", -10., 10.))
+                gencost[r, MODEL], gencost[r, NCOST] = POLYNOMIAL, 2
+                gencost[r, COST], gencost[r, COST + 1] = coef[r][1], coef[r][2]
+            else:
+                coef[r] = (ctx.var(f"c2_{r}", 0., 5.), ctx.var(f"c1_{r}", -10., 10.), ctx.var(f"c0_{r}", -10., 10.))
+                gencost[r, MODEL], gencost[r, NCOST] = POLYNOMIAL, 3
+                gencost[r, COST], gencost[r, COST + 1], gencost[r, COST + 2] = coef[r]
+        ny = sum(1 for k in order if k == "pwl")
+        nxyz = nb + ng + ny
+        bus = np.zeros((nb, bus_cols)); bus[0, BUS_TYPE] = 3; bus[1, BUS_TYPE] = 1
+        ppc = {"baseMVA": base, "bus": bus, "gen": np.zeros((ng, gen_cols)), "branch": np.zeros((1, branch_cols)), "gencost": gencost}
+        mk = (lambda shape: DMat(np.zeros(shape))) if ctx.symbolic else (lambda shape: __import__("scipy.sparse").sparse.csr_matrix(shape))
+        cap = {}
+
+        class OM:
+            def get_ppc(self): return ppc
+            def get_cost_params(self): return {"N": mk((0, nxyz)), "H": None, "Cw": np.array([]), "dd": np.zeros((0, 1)), "rh": np.zeros((0, 1)), "kk": np.zeros((0, 1)), "mm": np.zeros((0, 1))}
+            def userdata(self, name): return None
+            def get_idx(self):
+                vv = {"i1": {"Va": 0, "Pg": nb, "y": nb + ng}, "iN": {"Va": nb, "Pg": nb + ng, "y": nxyz}}
+                return vv, {}, None, None
+            def getN(self, what, name=None): return ny if name == "y" else nxyz
+            def linear_constraints(self): return None, np.array([]), np.array([])
+            def getv(self): return np.zeros(nxyz), np.full(nxyz, -1e3), np.full(nxyz, 1e3)
+
+        def qps(HH, CC, A, l, u, xmin, xmax, x0, opt):
+            fr = inspect.currentframe().f_back
+            cap.update(HH=HH, CC=CC, C0=fr.f_locals["C0"])
+            raise _StopQP()
+        ppopt = {"VERBOSE": 0, "OPF_ALG_DC": 200, "PDIPM_FEASTOL": 0, "PDIPM_GRADTOL": 1e-6, "PDIPM_COMPTOL": 1e-6, "PDIPM_COSTTOL": 1e-6,
+                 "PDIPM_MAX_IT": 150, "SCPDIPM_RED_IT": 20, "OPF_VIOLATION": 5e-6}
+        with patched(ds, qps_pypower=qps):
+            try:
+                ds.dcopf_solver(OM(), ppopt)
+            except _StopQP:
+                pass
+        ctx.true("quadratic_program_handed_to_the_solver", "HH" in cap)
+        if "HH" not in cap:
+            return
+        x = [0.0] * nb + [ctx.var(f"Pg{g}", -5., 5.) for g in range(ng)] + [ctx.var(f"y{k}", -50., 50.) for k in range(ny)]
+        HH = cap["HH"].toarray() if hasattr(cap["HH"], "toarray") else np.asarray(cap["HH"])
+        CC = np.asarray(cap["CC"]).ravel()
+        obj = cap["C0"]
+        for i in range(nxyz):
+            obj = obj + CC[i] * x[i]
+            for j in range(nxyz):
+                obj = obj + 0.5 * HH[i, j] * x[i] * x[j]
+        want = 0.0
+        for r, kind in enumerate(order):
+            if kind != "pwl":
+                pmw = x[nb + r] * base
+                c2, c1, c0 = coef[r]
+                want = want + c2 * pmw * pmw + c1 * pmw + c0
+        for k in range(ny):
+            want = want + x[nb + ng + k]
+        ctx.eq("objective_is_the_sum_of_the_users_polynomial_costs_plus_the_pwl_variables", obj, want)
+    return fn
+
+
 def instances(tier):
     out = []
     for et in ETS:
@@ -173,6 +258,8 @@ def instances(tier):
     for a, b in [("gen", "load"), ("sgen", "ext_grid"), ("storage", "gen")]:
         out.append(Inst(f"mixed_pwl_{a}_poly_{b}", make_fn([("pwl", a, "2p"), ("poly", b, "lin")]), nvars=26, samples=2,
                         meta=dict(kind="mixed", pwl=a, poly=b)))
+    for nm, order in (("poly_rows_first", ("lin", "quad", "pwl")), ("pwl_row_first", ("pwl", "lin", "quad")), ("pwl_between", ("quad", "pwl", "lin"))):
+        out.append(Inst(f"dc_opf_objective_{nm}", make_dc_objective(order), nvars=20, samples=2, meta=dict(part="DC OPF objective (dcopf_solver)", gencost_rows=list(order))))
     if tier == "thorough":
         for a, b in [("gen", "load"), ("load", "storage"), ("sgen", "dcline")]:
             out.append(Inst(f"two_poly_{a}_{b}", make_fn([("poly", a, "quad"), ("poly", b, "quad")]), nvars=28, samples=2,
